@@ -296,7 +296,26 @@ func checkC08(p *core.Program, r *core.Report) {
 		const R7 = "C08.R7 close-path-cannot-wedge"
 		r.Rule(R7, "a local close never reports a connection error upward (shared with C11.R7: the report re-enters the close-once of the SHIP connection on the goroutine that is inside it and blocks the receive loop for ever - an over-long close reason built from peer bytes is enough to make the close frame write fail) and the close routine releases blocked writers on every path (shared with C13.R1)")
 		importRules(p, r, "C11", map[string]string{"C11.R7 transport-end-is-reported": R7}, func(key string) bool { return strings.Contains(key, "never reports") })
-		importRules(p, r, "C13", map[string]string{"C13.R1 close-routine-releases": R7}, nil)
+		importRules(p, r, "C13", map[string]string{"C13.R1 close-routine-releases": R7, "C13.R2 error-told-or-not": R7}, func(key string) bool { return !strings.Contains(key, "not-reported-after-local-close") })
+		importRules(p, r, "C19", map[string]string{"C19.R5 shutdown-handshake-not-behind-lock": R7}, nil)
+		const R8 = "C08.R8 hub-calls-into-connections-are-open-calls"
+		r.Rule(R8, "the hub calls the state-changing methods of a SHIP connection (CloseConnection, AbortPendingHandshake, ApprovePendingHandshake) with no hub mutex held on any path: those methods can end the connection synchronously, and the end is reported back into Hub.HandleConnectionClosed, which takes the registry mutex - a caller that holds it blocks itself, the close-once of the connection and every later user of the registry")
+		if ci := p.Named("api", "ShipConnectionInterface"); ci == nil {
+			r.Unresolved(R8, "api.ShipConnectionInterface")
+		} else {
+			checkOpenCalls(p, r, R8, p.FuncsOf("hub"), "hub.Hub.", func(in ssa.Instruction) string {
+				c := core.Common(in)
+				if c == nil || !c.IsInvoke() || core.NamedOf(c.Value.Type()) != ci {
+					return ""
+				}
+				switch c.Method.Name() {
+				case "CloseConnection", "AbortPendingHandshake", "ApprovePendingHandshake":
+					return "connection." + c.Method.Name()
+				}
+				return ""
+			})
+			r.Floor(R8, 4)
+		}
 	}()
 	ensureCallSites(p)
 	const R1 = "C08.R1 panic-obligations"
